@@ -163,6 +163,22 @@ JVTuple(e) ==
   \cup Chk(e.print = PrintVersion(want) /\ e.print = e.dotted, "C18:prints-as-dotted")
   \cup Chk(e.parsed.out = "ok" /\ e.parsed.val = want /\ e.eq, "C18:equals-parse")
 
+\* ------------------------------------------------------------------ C06
+\* a call that panicked also failed to deliver what its own property promises
+PanicTag(call) ==
+  CASE call = "intersect"      -> {"C07:panicked"}
+    [] call = "difference"     -> {"C08:panicked"}
+    [] call = "allows_any"     -> {"C09:panicked"}
+    [] call = "allows_all"     -> {"C10:panicked"}
+    [] call = "min_version"    -> {"C11:panicked"}
+    [] call = "max_satisfying" -> {"C14:panicked"}
+    [] call = "diff"           -> {"C16:panicked"}
+    [] call = "from_tuple"     -> {"C18:panicked"}
+    [] call \in {"cmp", "sort"} -> {"C04:panicked"}
+    [] call \in {"to_string", "reprint"} -> {"C13:panicked"}
+    [] call = "version_roundtrip" -> {"C12:panicked"}
+    [] OTHER -> {}
+
 \* ------------------------------------------------------------------ register file
 Step(rr, e) ==
   CASE e.ev = "reset"  -> InitRegs
@@ -184,7 +200,7 @@ StepOrg(org, e) ==
 Judge(rr, org, e) ==
   CASE e.ev = "reset"  -> {}
     [] e.ev = "skip"   -> {}
-    [] e.ev = "panic"  -> {"C06:panic"}
+    [] e.ev = "panic"  -> {"C06:panic"} \cup PanicTag(e.call)
     [] e.ev = "rload"  -> Chk(~e.ok \/ e.val = e.want, "TOOL:hook-roundtrip") \cup Chk(e.ok \/ ~ValidRange(e.want), "SKIP:hook-rejected-valid-interval")
     [] e.ev = "rany"   -> Chk(e.val = <<AnyIv>>, "X:any")
     [] e.ev = "isect"  -> JIsect(rr[e.a], rr[e.b], e)
